@@ -242,7 +242,7 @@ def stepUno (s : St) (toks : List String) : St × String :=
   | ["copy"] => ({ s with a := s.b }, "ok")
   | ["move"] => ({ s with a := s.b, b := [] }, "ok")
   | ["cmp"] =>
-    let eq := if s.kind == "ummap" then mmEq (groupOf s.a) (groupOf s.b) else sorted s.a == sorted s.b
+    let eq := if s.kind == "ummap" then mmEq (groupOf s.a) (groupOf s.b) else usetEq s.a s.b
     (s, s!"{b01 eq} {b01 (!eq)}")
   | ["dropnode"] => ({ s with node := none }, "ok")
   | _ => (s, "bad-op")
